@@ -16,6 +16,7 @@ import (
 	"go/token"
 	"go/types"
 	"math/big"
+	"strings"
 )
 
 type valKind uint8
@@ -654,6 +655,11 @@ func cmpStr(a, b string) int {
 func (e *cEnv) eval(x ast.Expr) (Val, error) {
 	info := e.p.Info
 	if tv, ok := info.Types[x]; ok && tv.Value != nil {
+		if isFloat(tv.Type) {
+			if r, ok := exactConst(info, x); ok {
+				return Val{K: VRat, R: r}, nil
+			}
+		}
 		if v, ok := constVal(tv); ok {
 			return v, nil
 		}
@@ -871,4 +877,74 @@ func (e *cEnv) evalCall(n *ast.CallExpr) (Val, error) {
 		}
 	}
 	return e.callFunc(fd, args, n)
+}
+
+// exactConst returns the exact rational value of a constant numeric
+// expression. go/types rounds a literal converted to float64 to the nearest
+// float64; the oracle compares *literals* (0.85 = 0.850, 0.85 != 0.86), so
+// literals are re-read from their source text and untyped named constants
+// from their declared value.
+func exactConst(info *types.Info, x ast.Expr) (*big.Rat, bool) {
+	tv, ok := info.Types[x]
+	if !ok || tv.Value == nil {
+		return nil, false
+	}
+	switch tv.Value.Kind() {
+	case constant.Int, constant.Float:
+	default:
+		return nil, false
+	}
+	switch n := x.(type) {
+	case *ast.ParenExpr:
+		return exactConst(info, n.X)
+	case *ast.BasicLit:
+		if n.Kind == token.INT || n.Kind == token.FLOAT {
+			txt := strings.ReplaceAll(n.Value, "_", "")
+			if n.Kind == token.INT {
+				v := constant.MakeFromLiteral(n.Value, token.INT, 0)
+				if r, ok := new(big.Rat).SetString(v.ExactString()); ok {
+					return r, true
+				}
+			}
+			if !strings.HasPrefix(txt, "0x") && !strings.HasPrefix(txt, "0X") {
+				if r, ok := new(big.Rat).SetString(txt); ok {
+					return r, true
+				}
+			}
+		}
+	case *ast.UnaryExpr:
+		if n.Op == token.SUB {
+			if r, ok := exactConst(info, n.X); ok {
+				return new(big.Rat).Neg(r), true
+			}
+		}
+		if n.Op == token.ADD {
+			return exactConst(info, n.X)
+		}
+	case *ast.Ident:
+		if c, ok := info.Uses[n].(*types.Const); ok {
+			if r, ok := new(big.Rat).SetString(c.Val().ExactString()); ok {
+				return r, true
+			}
+		}
+	case *ast.BinaryExpr:
+		a, ok1 := exactConst(info, n.X)
+		b, ok2 := exactConst(info, n.Y)
+		if ok1 && ok2 && isFloat(tv.Type) {
+			switch n.Op {
+			case token.ADD:
+				return new(big.Rat).Add(a, b), true
+			case token.SUB:
+				return new(big.Rat).Sub(a, b), true
+			case token.MUL:
+				return new(big.Rat).Mul(a, b), true
+			case token.QUO:
+				if b.Sign() != 0 {
+					return new(big.Rat).Quo(a, b), true
+				}
+			}
+		}
+	}
+	r, ok := new(big.Rat).SetString(tv.Value.ExactString())
+	return r, ok
 }
